@@ -138,15 +138,17 @@ def build_env(mode='symbolic'):
     fftmod = _mod('numpy.fft', fft=snp._FFT.fft, ifft=snp._FFT.ifft, fftshift=snp._FFT.fftshift,
                   ifftshift=snp._FFT.ifftshift, fftfreq=snp._FFT.fftfreq)
     npmod.fft = fftmod
+    spfft = _mod('scipy.fft', fft=snp._FFT.fft, ifft=snp._FFT.ifft, fftshift=snp._FFT.fftshift, ifftshift=snp._FFT.ifftshift,
+                 fftfreq=snp._FFT.fftfreq, next_fast_len=snp._FFT.next_fast_len)
     npmod.random = snp._Random
     consts = _mod('scipy.constants', pi=npmod.pi, c=R(Fr(299792458)), h=R(Fr('6.62607015e-34')),
                   e=R(Fr('1.602176634e-19')), k=R(Fr('1.380649e-23')))
     scipy = _mod('scipy', constants=consts, signal=sig.signal_module(), special=sig.special_module(),
-                 integrate=sig.integrate_module(), stats=sig.stats_module())
+                 integrate=sig.integrate_module(), stats=sig.stats_module(), fft=spfft)
     mods = {
         'numpy': npmod, 'numpy.fft': fftmod, 'numpy.random': snp._Random,
         'scipy': scipy, 'scipy.constants': consts, 'scipy.signal': scipy.signal, 'scipy.special': scipy.special,
-        'scipy.integrate': scipy.integrate, 'scipy.stats': scipy.stats,
+        'scipy.integrate': scipy.integrate, 'scipy.stats': scipy.stats, 'scipy.fft': spfft,
         'sklearn': _mod('sklearn', cluster=sig.sklearn_cluster_module()),
         'pympler': _mod('pympler', asizeof=_mod('pympler.asizeof', asizeof=lambda o: 0)),
         'tqdm': _mod('tqdm', auto=_mod('tqdm.auto', tqdm=Dummy)),
